@@ -535,8 +535,24 @@ def check(run: Run) -> None:
             run.finding("C13.p", "target_link_dict_next_modified_slot:transition-scan", f"during a sampled transition next_modified_slot must return every live slot of the new target "
                         f"(bounded by the slot capacity); it tests {tests} over {sh.get('cond_r')}", loc=fb.loc(lps[0]))
 
+    with run.obligation("C13.q", "K6", "a reference taken from an input (TSInputView::reference) follows its target by BOUNDNESS, not by validity: a target landing on a from-reference "
+                        "alternative stays a reference to that position while the alternative is bound - also while the alternative's own target has not ticked yet - and reads "
+                        "as empty only when the alternative is unbound; an `empty` decided by `has no value yet` is published for good and later ticks / retargets never reach "
+                        "the consumer"):
+        fa = R.fn(run, BASE, "TSInputView::reference")
+        cn = R.aliases_of(fa)
+        empties = [s0 for s0 in fa.body.walk() if isinstance(s0, C.If) and any("TimeSeriesReference::empty" in cn(r.e) for r in R.find(s0.then, lambda x: isinstance(x, C.Return)) if r.e is not None)]
+        run.sites(len(empties), 3, "empty-reference decisions")
+        for s0 in empties:
+            run.count(1, "C13.q")
+            c = cn(s0.cond).replace(" ", "")
+            if re.search(r"has_current_value\(\)|\.modified\(|all_valid\(\)", c) or (re.search(r"(?<![\w.])!?[\w.()>-]*valid\(\)", c) and "target" in c):
+                run.finding("C13.q", f"TSInputView::reference:empty-decided-by-validity:{c[:60]}", f"TSInputView::reference returns an EMPTY reference when `{c[:140]}`: emptiness must follow "
+                            "boundness (`!target.bound()`, `!inner->bound()`) - a bound target that has not ticked yet is still the thing the reference points at", loc=fa.loc(s0))
+
 
 VARIANTS = [
+    {"id": "q-seed-C13-7-empty-reference-while-target-has-no-value", "expect": "C13.q", "edits": [{"file": BASE, "find": "                if (inner != nullptr && !inner->bound())", "replace": "                if (inner != nullptr && !target_data.has_current_value())"}]},
     {"id": "c-revert-fix-F-C04-2-shortcut-at-any-position-any-cycle", "expect": "C13.c", "edits": [{"file": BASE, "find": "            if (data_.is_target_root())\n            {\n                const auto *link = data_.link_storage();\n                if (link != nullptr && link->tracking.last_modified_time == evaluation_time_ &&\n                    link->tracking.last_modified_time > data.last_modified_time())", "replace": "            if (is_target_position())\n            {\n                const auto *link = data_.link_storage();\n                if (link != nullptr && link->tracking.last_modified_time > data.last_modified_time())"}]},
     {"id": "c-shortcut-not-keyed-on-cycle", "expect": "C13.c", "edits": [{"file": BASE, "find": "                if (link != nullptr && link->tracking.last_modified_time == evaluation_time_ &&\n                    link->tracking.last_modified_time > data.last_modified_time())\n                {\n                    return data.value();", "replace": "                if (link != nullptr && link->tracking.last_modified_time > data.last_modified_time())\n                {\n                    return data.value();"}]},
     {"id": "p-seed-C13-6-retarget-modified-only-new-or-ticked", "expect": "C13.p", "edits": [{"file": "src/hgraph/types/time_series/ts_input/target_link_ops.cpp", "find": "                return target.as_dict().slot_live(slot);\n            }\n            return target.as_dict().slot_modified(slot);", "replace": "                auto dict = target.as_dict();\n                return dict.slot_live(slot) && (dict.slot_modified(slot) || target_link_set_slot_added(context, memory, slot));\n            }\n            return target.as_dict().slot_modified(slot);"}]},
